@@ -236,6 +236,12 @@ def body_digest_sync(req, case, d):
             d[key] = grab(lambda: _consume_sync(req.get_media()))
         elif op == 'media_default':
             d[key] = grab(lambda: _consume_sync(req.get_media(default_when_empty='vf-default')))
+        elif op == 'exhaust':
+            d[key] = grab(lambda: req.bounded_stream.exhaust())
+        elif op == 'eof':
+            d[key] = grab(lambda: bool(req.bounded_stream.eof))
+        elif op == 'read70000':
+            d[key] = grab(lambda: len(req.bounded_stream.read(70000)))
         else:
             raise HarnessError('unknown body op %r' % (op,))
 
@@ -284,6 +290,16 @@ async def body_digest_async(req, case, d):
             d[key] = await agrab(lambda: _media_async(req, {}))
         elif op == 'media_default':
             d[key] = await agrab(lambda: _media_async(req, {'default_when_empty': 'vf-default'}))
+        elif op == 'exhaust':
+            d[key] = await agrab(lambda: req.bounded_stream.exhaust())
+        elif op == 'eof':
+            async def _eof():
+                return bool(req.bounded_stream.eof)
+            d[key] = await agrab(_eof)
+        elif op == 'read70000':
+            async def _r7():
+                return len(await req.bounded_stream.read(70000))
+            d[key] = await agrab(_r7)
         else:
             raise HarnessError('unknown body op %r' % (op,))
 
@@ -1270,6 +1286,57 @@ class WsgiAsgi(Suite):
         return Info(nontrivial, labels)
 
 
+class BigBodies(Suite):
+    """Request bodies beyond the moderate range (64 KiB +- 1, 64 KiB + 17, 70 000, 140 001, 300 000, 1 MiB + 3 bytes; binary
+    and JSON) delivered in 4 KiB / 64 KiB / single events, consumed by read / read(3) / read(70000) / exhaust() /
+    get_media() in 9 patterns, with the stream's eof flag observed in between: the in-responder digests and the response
+    triples of the WSGI and the ASGI rendering must be equal (the body is echoed back as a digest)."""
+
+    name = 'big_bodies'
+    exhaustive = True
+    budget = {'quick': 1, 'thorough': 1}
+    READS = [['read'], ['read3', 'exhaust', 'eof', 'read'], ['exhaust', 'eof', 'read3'], ['read3', 'eof', 'read', 'eof'],
+             ['read70000', 'eof', 'exhaust', 'eof', 'read'], ['media'], ['read3', 'media'], ['eof', 'read70000', 'read70000', 'read'], []]
+
+    def cases(self, tier):
+        sizes = (65535, 65536, 65537, 65553, 70000, 140001, 300000, 1048579)
+        for size in (sizes if tier != 'quick' else (65536, 65553, 140001, 300000)):
+            for kind in ('binary', 'json'):
+                for chunk in (4096, 65536, 0):
+                    for ri, read in enumerate(self.READS):
+                        if kind == 'binary' and 'media' in read:
+                            continue
+                        yield {'size': size, 'kind': kind, 'chunk': chunk, 'read': read}
+
+    def run(self, case):
+        size = case['size']
+        if case['kind'] == 'json':
+            items = ['"item-%06d"' % i for i in range(size // 14 + 1)]
+            body = ('[' + ', '.join(items) + ']').encode()
+            ctype = 'application/json'
+        else:
+            body = bytes((i * 7 + (i >> 8)) & 0xFF for i in range(size))
+            ctype = 'application/octet-stream'
+        full = {'method': 'POST', 'raw_path': '/', 'query': '', 'headers': [['Content-Type', ctype], ['Content-Length', str(len(body))]],
+                'body': body, 'chunks': [case['chunk']] if case['chunk'] else [], 'scheme': 'http', 'server': ['falconframework.org', 80],
+                'client': ['127.0.0.1', 4711], 'root_path': '', 'http_version': '1.1',
+                'opts': {'csv': False, 'keep_blank': True, 'strip': False}, 'read': list(case['read']),
+                'resp': {'append': [], 'body': ['none', None], 'cookies': [], 'ctype': None, 'props': [], 'raise': None, 'set': [], 'status': None,
+                         'unset': []}}
+        try:
+            wapp, wh, aapp, ah = apps_for(full)
+            w = via_wsgi_driver(wapp, wh, full)
+            a = via_asgi_driver(aapp, ah, full)
+            compare_digests('wsgi', w, 'asgi', a, full)
+            compare_triples('wsgi', w, 'asgi', a, full)
+        except Violation as v:
+            d = v.detail
+            raise Violation(v.kind, '%s ... %s\n  compact case=%r' % (d[:500], d[-200:], case))
+        return Info(True, ['size:%s' % ('<=64K' if size <= 65536 else '>64K'), 'kind:' + case['kind'], 'events:%s' % (case['chunk'] or 'single'),
+                           'read:' + ('+'.join(case['read']) or 'none')])
+
+
+
 class Client(Suite):
     """The sub-domain falcon.testing.simulate_request can express through its documented arguments (explicit
     User-Agent; Host = host[:port] of the simulated server via host=/port=, or no Host with http_version 1.0;
@@ -1432,7 +1499,7 @@ class ClientSession(Suite):
         return Info(True, labels)
 
 
-SUITES = [WsgiAsgi(), Client(), ClientPair(), ClientSession()]
+SUITES = [WsgiAsgi(), BigBodies(), Client(), ClientPair(), ClientSession()]
 import re as _re
 
 _HUGE_NUMBER = _re.compile(r'[0-9]{4301}')
